@@ -226,14 +226,17 @@ class Engine:
         return ob
 
     def _side_axioms(self):
-        from . import floatmodel
-        return floatmodel.instantiate(self)
+        return list(self.path_axioms)
+
+    def add_axiom(self, c):
+        """a fact about a stub (rounding function, pow) valid whenever the application exists: known to the
+        path solver at once (so feasibility checks see it) and carried into every obligation of the path"""
+        self.path_axioms.append(c)
+        self.solver.add(c)
 
     def discharge_inline(self, ob):
         self.solver.push()
         try:
-            for a in self._side_axioms():
-                self.solver.add(a)
             self.solver.add(z3.Not(ob.prop))
             r = self._check()
             if r == 'unsat':
@@ -250,8 +253,6 @@ class Engine:
         """A model of the current path condition (reachability witness) or None."""
         self.solver.push()
         try:
-            for a in self._side_axioms():
-                self.solver.add(a)
             r = self._check()
             if r == 'sat':
                 return self.solver.model()
